@@ -202,3 +202,42 @@ Definition crash_during_close (j : nat) (now stamp maxAge : Z) (s : store) : sto
 (* the seeded change C11-e: sub-objects first, the plan row last *)
 Definition writes_plan_last (pm : plan) : list row :=
   tl (rows_plan pm) ++ [RPlan (oid (p_id pm)) (p_state pm) (p_reason pm)].
+
+(* ---- execute.New and a recovery that fails (since fix 2c25a0f, R8) ----
+       if e.recovery { if err := e.recover(ctx); err != nil { return nil, err } }
+   recover's state chain stops at the first store operation that returns an error (Search, a Read, an
+   Update* of the close - or all of them when the context handed to New is already done): New then returns
+   the error and NO executor, so nothing is resumed by this process; what it leaves in the store is what
+   the Update* calls made so far wrote.  [budget] = how many store operations of recovery succeed before
+   one fails (None: all succeed): 1 Search, one Read per Running plan, then the writes of the closes. *)
+Inductive outcome :=
+| Opened (s' : store) (resumed : list N)      (* nil error: a Workstream exists, these ids were handed to runPlan *)
+| Refused (s' : store).                        (* error: no Workstream, nothing resumed *)
+
+Definition execute_new (budget : option nat) (now stamp maxAge : Z) (recovery : bool) (s : store) : outcome :=
+  let done := Opened (fst (select now stamp maxAge recovery s)) (snd (select now stamp maxAge recovery s)) in
+  if negb recovery then done else
+  match fetch_plans s (search_running s) with
+  | None => Refused s
+  | Some plans =>
+      match budget with
+      | None => done
+      | Some k =>
+          if Nat.leb k (length plans) then Refused s                      (* Search or a Read failed *)
+          else let j := (k - 1 - length plans)%nat in
+               if Nat.ltb j (length (close_writes now stamp maxAge s))
+               then Refused (crash_during_close j now stamp maxAge s)      (* the (j+1)-th write of a close failed *)
+               else done
+      end
+  end.
+
+(* ---- candidate R9 (not repaired): a search index that does NOT list a durably Running plan ----
+   cosmosdb UpdatePlan patches the plan item and then replaces the search entry; torn between the two on
+   the first write of a run (NotStarted -> Running) the item is Running and the entry still NotStarted.
+   Vault.Recovery only looks at entries that say Running, so it does not repair this; [missing] are the
+   ids of such plans. *)
+Definition search_index_torn (missing : list N) (v : vault) : list N :=
+  filter (fun id => negb (existsb (N.eqb id) missing)) (search_running (v_plans v)) ++ v_stale v.
+
+Definition open_workstream_torn (missing : list N) (now stamp maxAge : Z) (v : vault) : store * list N :=
+  select_from now stamp maxAge (v_plans v) (search_index_torn missing (repair_index v)).
